@@ -290,15 +290,29 @@ pub fn gen_c01(seed: u64, thorough: bool) {
         } else {
             src.labels(&mut rng, nlab, recombine)
         };
-        let nlab = lines.len();
-        if rng.chance(0.3) && nlab > 0 {
-            // alignment on, with time stamps on some lines
+        // alignment on for every fourth case (by index, so that every run has each stamping pattern):
+        // 0 = random 70 % of the lines stamped, 1 = the last two or more lines unstamped, 2 = only the first line
+        // stamped, 3 = every line stamped
+        if i % 4 == 2 && i % 8 != 5 && i % 10 != 9 {
+            let pattern = (i / 4) % 4;
+            if pattern == 1 && lines.len() < 3 {
+                let want = rng.range(3, 6);
+                lines = src.labels(&mut rng, want, recombine);
+            }
+            let nl = lines.len();
             e.condition.set_phoneme_alignment_flag(true);
             let per = e.condition.get_fperiod() as f64 * 1e7 / e.condition.get_sampling_frequency() as f64;
             let mut t = 0.0f64;
-            for l in lines.iter_mut() {
+            let unstamped_tail = if nl >= 3 { rng.range(2, nl - 1) } else { 0 };
+            for (k, l) in lines.iter_mut().enumerate() {
                 let len = rng.uniform(2.0, 40.0);
-                if rng.chance(0.7) {
+                let stamp = match pattern {
+                    0 => rng.chance(0.7),
+                    1 => k + unstamped_tail < nl,
+                    2 => k == 0,
+                    _ => true,
+                };
+                if stamp {
                     *l = format!("{} {} {}", (t * per).round() as u64, ((t + len) * per).round() as u64, l);
                 }
                 t += len;
